@@ -293,6 +293,13 @@ type expectation struct {
 	Caller  bool                // the enableCaller property of this configuration
 }
 
+// rotation policies registered by the application, under names of its choosing
+func init() {
+	log.RegisterTimeRotation("Daily", log.TimeRotation{Interval: 24 * time.Hour})
+	log.RegisterTimeRotation("2H", log.TimeRotation{Interval: 2 * time.Hour})
+	log.RegisterTimeRotation("quarter", log.TimeRotation{Interval: 15 * time.Minute})
+}
+
 var tagNames = []string{"_c15_a", "_c15_b", "_c15_c"}
 var tags = func() map[string]*log.Tag {
 	m := map[string]*log.Tag{}
@@ -324,8 +331,11 @@ func genConfig(t *rapid.T, dir string) (config, expectation) {
 		var e string
 		switch o {
 		case "rec":
-			c.Appenders["rec"] = &node{Type: "Rec"}
-			sinks = append(sinks, "rec")
+			// an appender's name may contain letters outside ASCII (it is a key segment and a
+			// reference value at once: both must stay what was written)
+			rn := rapid.SampledFrom([]string{"rec", "rec", "donnéesrec", "日志rec", "überwachung"}).Draw(t, "recName")
+			c.Appenders[rn] = &node{Type: "Rec"}
+			sinks = append(sinks, rn)
 			exp.Types = append(exp.Types, "appender:Rec")
 		case "con":
 			n := &node{Type: "Console"}
@@ -342,7 +352,7 @@ func genConfig(t *rapid.T, dir string) (config, expectation) {
 			c.Appenders["fil"] = n
 			exp.Types = append(exp.Types, "appender:File")
 		case "rol":
-			c.Appenders["rol"] = &node{Type: "RollingFile", Fields: []field{attr("fileDir", dir), attr("fileName", "rol.log"), attr("rotation", rapid.SampledFrom([]string{"h", "30m", "10m"}).Draw(t, "rolRot")), attr("maxAge", strconv.Itoa(rapid.IntRange(1, 720).Draw(t, "rolAge")))}}
+			c.Appenders["rol"] = &node{Type: "RollingFile", Fields: []field{attr("fileDir", dir), attr("fileName", "rol.log"), attr("rotation", rapid.SampledFrom([]string{"h", "30m", "10m", "Daily", "2H", "quarter"}).Draw(t, "rolRot")), attr("maxAge", strconv.Itoa(rapid.IntRange(1, 720).Draw(t, "rolAge")))}}
 			exp.Types = append(exp.Types, "appender:RollingFile")
 		case "dis":
 			c.Appenders["dis"] = &node{Type: "Discard"}
@@ -381,7 +391,7 @@ func genConfig(t *rapid.T, dir string) (config, expectation) {
 			n.Fields = append(n.Fields, attr("fileDir", dir), attr("fileName", name+".log"))
 			exp.Files[tag] = name + ".log"
 		case "RollingFile":
-			n.Fields = append(n.Fields, attr("fileDir", dir), attr("fileName", name+".roll"), attr("rotation", "h"))
+			n.Fields = append(n.Fields, attr("fileDir", dir), attr("fileName", name+".roll"), attr("rotation", rapid.SampledFrom([]string{"h", "h", "Daily", "2H", "quarter"}).Draw(t, name+"rot")))
 			if rapid.Bool().Draw(t, name+"async") {
 				n.Fields = append(n.Fields, attr("async", "true"), attr("bufferFullPolicy", "Block"))
 			}
@@ -639,10 +649,10 @@ func observe(c config, exp expectation) (observed, error) {
 		p.mu.Unlock()
 	}
 	probeMu.Unlock()
-	if r := vk.Rec("rec"); r != nil {
+	for rn, r := range vk.AllRecs() { // the recording appender, under whatever name it was configured
 		for _, it := range r.Items() {
-			o.Received["rec"] = append(o.Received["rec"], it.ID)
-			o.CallerOn["rec"] = append(o.CallerOn["rec"], it.File != "")
+			o.Received[rn] = append(o.Received[rn], it.ID)
+			o.CallerOn[rn] = append(o.CallerOn[rn], it.File != "")
 		}
 	}
 	for _, ids := range o.Received {
